@@ -14,6 +14,10 @@
 #include "vm_sandbox.hpp"
 #include "trace.hpp"
 
+#include <setjmp.h>
+#include <signal.h>
+#include <unistd.h>
+
 #include <cstring>
 #include <limits>
 #include <random>
@@ -185,6 +189,23 @@ static bool defined_plain(TA a, TB b)
   }
 }
 
+// An arithmetic fault (SIGFPE) inside a wrapped operator is the observation of that evaluation.
+static sigjmp_buf g_fpe_jmp;
+static volatile sig_atomic_t g_fpe_armed = 0;
+static void on_fpe(int)
+{
+  if (g_fpe_armed) {
+    siglongjmp(g_fpe_jmp, 1);
+  }
+  _exit(8);
+}
+#define GUARDED_TRY                                                                                                    \
+  if (sigsetjmp(g_fpe_jmp, 1) != 0) {                                                                                  \
+    g_fpe_armed = 0;                                                                                                   \
+    outc = "fault";                                                                                                    \
+  } else                                                                                                               \
+    try
+
 struct Combo
 {
   std::string op, lw, rw, lt, rt;
@@ -239,7 +260,8 @@ static void binary_combo(const std::vector<std::pair<W, W>>& pairs, bool summari
     W wrapped_bits = 0;
     bool same = false;
     const char* outc = "ok";
-    try {
+    GUARDED_TRY {
+      g_fpe_armed = 1;
       auto eval = [&](auto& wa, auto& wb) {
         auto r = apply<OP>(wa, wb);
         auto raw = r.UNSAFE_unverified();
@@ -269,6 +291,7 @@ static void binary_combo(const std::vector<std::pair<W, W>>& pairs, bool summari
     } catch (const std::runtime_error&) {
       outc = "abort";
     }
+      g_fpe_armed = 0;
     c.pairs++;
     bool ok = std::strcmp(outc, "ok") == 0 && wrapped_bits == bits_of(plain) && same;
     if (c.type_same != 0) {
@@ -390,7 +413,8 @@ static void compound(std::mt19937_64& rng)
       // RLBox assigns through tainted<decltype(x OP y)> -> T; only forms that compile are used (see main)
       W after = 0, ret = 0;
       const char* outc = "ok";
-      try {
+      GUARDED_TRY {
+      g_fpe_armed = 1;
         auto run = [&](auto& wx) {
           auto doit = [&](const auto& wy) {
             if constexpr (OP == ADD) {
@@ -433,6 +457,7 @@ static void compound(std::mt19937_64& rng)
       } catch (const std::runtime_error&) {
         outc = "abort";
       }
+      g_fpe_armed = 0;
       tr::Ev e("upd");
       e.str("op", std::string(OPN[OP]) + "=").str("lw", std::string(1, LW)).str("rw", std::string(1, RW));
       e.str("lt", TN<T>::v).str("rt", TN<U>::v).wide("a", aw).wide("b", bw).wide("plain_after", bits_of(px));
@@ -497,7 +522,8 @@ static void incdec_unary()
       W after = 0, ret = 0;
       bool same = true;
       const char* outc = "ok";
-      try {
+      GUARDED_TRY {
+      g_fpe_armed = 1;
         auto run = [&](auto& wx) {
           switch (which) {
             case 0:
@@ -542,6 +568,7 @@ static void incdec_unary()
       } catch (const std::runtime_error&) {
         outc = "abort";
       }
+      g_fpe_armed = 0;
       static const char* NM[] = { "++pre", "++post", "--pre", "--post", "neg", "compl" };
       tr::Ev e("upd");
       e.str("op", NM[which]).str("lw", std::string(1, LW)).str("rw", "-").str("lt", TN<T>::v).str("rt", "-");
@@ -618,6 +645,7 @@ int main(int argc, char** argv)
   }
   std::mt19937_64 rng(std::atoll(argv[2]));
   bool thorough = std::atoi(argv[3]) != 0;
+  signal(SIGFPE, on_fpe);
   RS sandbox;
   sandbox.create_sandbox();
   sb = &sandbox;
